@@ -84,13 +84,15 @@ def universe():
     evs.append(mk("f", 1, 10, [["e", "a"], ["p", PK["0"]]], n))       # two tag names
     n += 1
     evs.append(mk("7", 1, 20, [["delegation", PK["0"], "kind=1", "00" * 64]], n))   # NIP-26: posted by 7f.. on behalf of 00..
+    n += 1
+    evs.append(mk("0", 1, 15, [["e", "a"], ["e", "b"], ["p", PK["0"]]], n))       # several values of one name AND another name
     return evs
 
 
 U = universe()
 ID0 = U[0].id          # author 00, kind 1, ts 10
 IDF = U[17].id         # author ff, kind 256, ts 20
-WINDOWS = [{}, {"since": 15}, {"until": 15}, {"since": 5, "until": 25}, {"since": 10}, {"until": 20}, {"since": 0}, {"since": 12, "until": 18}, {"until": 0}]
+WINDOWS = [{}, {"since": 15}, {"until": 15}, {"since": 5, "until": 25}, {"since": 10}, {"until": 20}, {"since": 0}, {"since": 12, "until": 18}, {"until": 0}, {"since": 5, "until": 15}]
 BASES = [
     {"kinds": [1]}, {"kinds": [2]}, {"kinds": [1, 2]}, {"kinds": [256]}, {"kinds": [0]}, {"kinds": [0, 256]},
     {"authors": [PK["0"]]}, {"authors": [PK["7"]]}, {"authors": [PK["f"]]}, {"authors": [PK["7"], PK["f"]]}, {"authors": [PK["0"], PK["f"]]},
